@@ -59,6 +59,12 @@ func check(c *harness.Ctx, u *universe, leaf *cert, roots, inters []*cert, q que
 	if c.Guard("verify-panic:"+kind, "Verify "+label, nil, func() { chains, err = leaf.x.Verify(opts) }) {
 		return
 	}
+	if want != refAcceptN(leaf, roots, inters, q, true) {
+		// a CA certificate with an extended-key-usage extension decides: the statement restricts the
+		// leaf only, the library (like Go) nests usages through the chain
+		c.Add("not-judged-ca-extended-key-usage", 1)
+		return
+	}
 	if sgcAmbiguous(leaf.d, q.usages) {
 		c.Add("not-judged-server-gated-crypto", 1)
 		return
@@ -279,6 +285,49 @@ var dnsAlphabet = []string{"", "www.example.test", "WWW.EXAMPLE.TEST", "www.exam
 
 var usageAlphabet = [][]gx509.ExtKeyUsage{nil, {gx509.ExtKeyUsageClientAuth}, {gx509.ExtKeyUsageAny}, {gx509.ExtKeyUsageServerAuth, gx509.ExtKeyUsageClientAuth}, {gx509.ExtKeyUsageCodeSigning},
 	{gx509.ExtKeyUsageEmailProtection}, {gx509.ExtKeyUsageMicrosoftServerGatedCrypto}, {gx509.ExtKeyUsageEmailProtection, gx509.ExtKeyUsageCodeSigning}}
+
+// caEKUUnit: CA certificates that carry an extended-key-usage extension, next to twins that do not
+// (same subject and key: as trust anchor, as intermediate, cross-signed by another root). Every
+// subset of 3 roots x every subset of 4 intermediates, in both insertion orders, x 4 leaves x the
+// usage alphabet. Where a chain exists whose CAs all allow the usage the library must find it even
+// if a shorter chain through a restricted CA exists too.
+func caEKUUnit() harness.Unit {
+	return harness.Unit{Name: "ca-extended-key-usage", Run: func(c *harness.Ctx) {
+		u, err := buildUniverse()
+		if err != nil {
+			c.Violate("setup", err.Error(), nil, nil)
+			return
+		}
+		get := func(ids []string, mask int, rev bool) []*cert {
+			var o []*cert
+			for i, id := range ids {
+				if mask&(1<<uint(i)) != 0 {
+					o = append(o, u.byID[id])
+				}
+			}
+			if rev {
+				for i, j := 0, len(o)-1; i < j; i, j = i+1, j-1 {
+					o[i], o[j] = o[j], o[i]
+				}
+			}
+			return o
+		}
+		rootIDs := []string{"R1", "R1-clientAuthEKU", "R2"}
+		interIDs := []string{"A", "A-clientAuthEKU", "A-byR2", "X-R1-as-intermediate"}
+		for rm := 1; rm < 1<<uint(len(rootIDs)); rm++ {
+			for im := 0; im < 1<<uint(len(interIDs)); im++ {
+				for _, rev := range []bool{false, true} {
+					for _, lid := range []string{"L-byR1", "L-byA", "L-byA-clientAuth", "L-byA-serverAuth"} {
+						for _, us := range usageAlphabet {
+							check(c, u, u.byID[lid], get(rootIDs, rm, rev), get(interIDs, im, rev), query{2020, "", us}, "ca-eku")
+						}
+					}
+				}
+			}
+		}
+		c.Sample("roots from {R1, R1 with clientAuth EKU, R2} x intermediates from {A, A with clientAuth EKU, A by R2, R1 cross-signed by R2} x both insertion orders x 4 leaves x 8 requested usage sets")
+	}}
+}
 
 func leafQueryUnit(pi int) harness.Unit {
 	return harness.Unit{Name: fmt.Sprintf("leaf-x-query/pool%d", pi), Run: func(c *harness.Ctx) {
@@ -509,6 +558,7 @@ var Prop = &harness.Prop{
 		for i := 0; i < 5; i++ {
 			u = append(u, leafQueryUnit(i))
 		}
+		u = append(u, caEKUUnit())
 		u = append(u, constraintUnit(), leafAsRootUnit(), boundaryTimeUnit())
 		return u
 	},
